@@ -544,6 +544,93 @@ func bNodeDiffCases(t *testing.T) int {
 
 func TestBounded_C07(t *testing.T) {
 	bStat("C07.version_pairs", bNodeDiffCases(t))
+	// a store Load that fails once during the node diff: the diff either fails, or what it
+	// reports is still complete (a silently shortened list would leave the replica incomplete)
+	faults := 0
+	seeds := 6
+	if bTier() == "thorough" {
+		seeds = bScale(40)
+	}
+	for seed := 1; seed <= seeds; seed++ {
+		r := &bRand{uint64(seed)*0xF1357AEA2E62A9C5 + 9}
+		bf := uint(2 + r.intn(4))
+		st := newBStore("mem://nodediff-faults")
+		am := map[int]int{}
+		for i, n := 0, 10+r.intn(40); i < n; i++ {
+			am[r.intn(64)] = r.intn(3)
+		}
+		a, err := bBuild(bf, bFormats[r.intn(2)], st, am, 0, false)
+		if err != nil {
+			continue
+		}
+		ra, err := a.MakeRoot(bctx)
+		if err != nil {
+			continue
+		}
+		b, err := ra.LoadMast(bctx, bCfg(st, nil))
+		if err != nil {
+			continue
+		}
+		bm := bCopyModel(am)
+		for i, n := 0, 1+r.intn(5); i < n; i++ {
+			bApply(b, bm, bOp{false, r.intn(64), 7 + i})
+		}
+		rb, err := b.MakeRoot(bctx)
+		if err != nil {
+			continue
+		}
+		reachOld, _ := bReachRoot(ra, st)
+		reachNew, _ := bReachRoot(rb, st)
+		for n := 1; n <= 24; n++ {
+			oldT, err1 := ra.LoadMast(bctx, bCfg(st, nil))
+			newT, err2 := rb.LoadMast(bctx, bCfg(st, nil))
+			if err1 != nil || err2 != nil {
+				break
+			}
+			added, removed := map[string]bool{}, map[string]bool{}
+			st.reset()
+			st.failLoad = n
+			derr := func() (err error) {
+				defer func() {
+					if rec := recover(); rec != nil {
+						err = fmt.Errorf("panic: %v", rec)
+					}
+				}()
+				return newT.DiffLinks(bctx, oldT, func(rem bool, link interface{}) (bool, error) {
+					if name, ok := link.(string); ok {
+						if rem {
+							removed[name] = true
+						} else {
+							added[name] = true
+						}
+					}
+					return true, nil
+				})
+			}()
+			st.mu.Lock()
+			hit := st.failLoad == 0
+			st.mu.Unlock()
+			st.reset()
+			if !hit {
+				break // the diff needs fewer than n loads
+			}
+			faults++
+			if derr != nil {
+				continue // the fault was reported: fine
+			}
+			for name := range reachNew {
+				if !reachOld[name] && !added[name] {
+					bViolation(t, "C07", "added-missing-after-fault", "seed=%d bf=%d: the %d-th store Load failed once during DiffLinks; DiffLinks returned no error but did not report node %s (reached only by the new version) as added", seed, bf, n, name)
+				}
+			}
+			for name := range reachOld {
+				if !reachNew[name] && !removed[name] {
+					bViolation(t, "C07", "removed-missing-after-fault", "seed=%d bf=%d: the %d-th store Load failed once during DiffLinks; DiffLinks returned no error but did not report node %s (reached only by the old version) as removed", seed, bf, n, name)
+				}
+			}
+		}
+	}
+	bStat("C07.fault_cases", faults)
 }
 
 func TestBounded_C15(t *testing.T) {
